@@ -170,7 +170,7 @@ Definition cs_inv (o : N) (s : cseq) : Prop :=
 Definition cs_P (pre rest : list byte) (i : N) (s : cseq) : Prop := i = nnat (length pre) /\ cs_inv i s.
 Definition cs_Q (pre rest : list byte) (i o : N) (e : err) (s : cseq) : Prop :=
   i = nnat (length pre) /\ o <= i + nnat (length rest) /\ cs_inv (i + nnat (length rest)) s /\
-  (e = EMore -> i <= o /\ cs_inv o s) /\ (e = EOk -> i <= o).
+  (e = EMore -> i <= o /\ cs_inv o s) /\ (e = EOk -> i <= o /\ cs_inv o s).
 Definition cs_step_res (pre rest : list byte) (i : N) (r : ires cseq) : Prop :=
   match r with
   | Next k s' => (0 < k <= length rest)%nat /\ cs_P (zpre k pre rest) (zrest k rest) (i + nnat k) s'
@@ -237,7 +237,7 @@ Qed.
 
 Theorem cseq_safe buf offs s : offs <= nnat (length buf) -> cs_inv offs s ->
   match parse_cseq buf offs s with
-  | Done o e s' => o <= nnat (length buf) /\ cs_inv (nnat (length buf)) s' /\ (e = EMore -> offs <= o /\ cs_inv o s') /\ (e = EOk -> offs <= o)
+  | Done o e s' => o <= nnat (length buf) /\ cs_inv (nnat (length buf)) s' /\ (e = EMore -> offs <= o /\ cs_inv o s') /\ (e = EOk -> offs <= o /\ cs_inv o s')
   | _ => False
   end.
 Proof.
@@ -261,7 +261,7 @@ Proof.
   assert (E : i' + nnat (length r') = nnat (length buf)) by (unfold nnat in *; lia).
   rewrite E in *. split; [exact H1|]. split; [exact H2|]. split.
   - intros He. destruct (H3 He). split; [lia|assumption].
-  - intros He. specialize (H4 He). lia.
+  - intros He. destruct (H4 He). split; [lia|assumption].
 Qed.
 Lemma cseq0_inv o : cs_inv o cseq0. Proof. unfold cs_inv, pf_end. cbn. lia. Qed.
 
@@ -272,7 +272,7 @@ Definition fl_inv (o : N) (s : fline) : Prop :=
   pf_end (fl_statuscode s) <= o /\ pf_end (fl_reason s) <= o.
 Definition fl_Q (rest : list byte) (i o : N) (e : err) (s : fline) : Prop :=
   o <= i + nnat (length rest) /\ fl_inv (i + nnat (length rest)) s /\
-  (e = EMore -> i <= o /\ fl_inv o s) /\ (e = EOk -> i <= o).
+  (e = EMore -> i <= o /\ fl_inv o s) /\ (e = EOk -> i <= o /\ fl_inv o s).
 Definition fl_res (rest : list byte) (i : N) (r : ires fline) : Prop :=
   match r with Ret o e s' => fl_Q rest i o e s' | _ => False end.
 Lemma fl_inv_mono o o' s : o <= o' -> fl_inv o s -> fl_inv o' s.
@@ -284,7 +284,7 @@ Proof.
   intros Hk. unfold fl_res, fl_Q. destruct r as [|o e s'|]; auto. rewrite skipn_length.
   replace (i + nnat k + nnat (length rest - k)) with (i + nnat (length rest)) by (unfold nnat; lia).
   intros (H1 & H2 & H3 & H4). split; [exact H1|]. split; [exact H2|].
-  split; [intros He; destruct (H3 He); split; [unfold nnat in *; lia|assumption]|intros He; specialize (H4 He); unfold nnat in *; lia].
+  split; [intros He; destruct (H3 He); split; [unfold nnat in *; lia|assumption]|intros He; destruct (H4 He); split; [unfold nnat in *; lia|assumption]].
 Qed.
 
 Ltac fl_fin := unfold fl_res, fl_Q, fl_inv, pf_end in *; cbn -[N.add N.sub nnat length] in *; unfold nnat in *;
@@ -387,7 +387,7 @@ Qed.
 
 Theorem fline_safe buf offs s : offs <= nnat (length buf) -> fl_inv offs s ->
   match parse_fline buf offs s with
-  | Done o e s' => o <= nnat (length buf) /\ fl_inv (nnat (length buf)) s' /\ (e = EMore -> offs <= o /\ fl_inv o s') /\ (e = EOk -> offs <= o)
+  | Done o e s' => o <= nnat (length buf) /\ fl_inv (nnat (length buf)) s' /\ (e = EMore -> offs <= o /\ fl_inv o s') /\ (e = EOk -> offs <= o /\ fl_inv o s')
   | _ => False
   end.
 Proof.
